@@ -670,6 +670,46 @@ func (a *anchors) liveTables(r *report.Report) {
 			}
 			r.OK(RuleCurrent, key, pos, "PSISectionSyntaxData."+in.field.Name()+" = "+desc+" (live state at generation time), and that literal is reachable from the PSIData passed to writePSIData")
 		}
+		// every successful return regenerated the table: it is dominated by the serialisation of the live state and by the
+		// packetisation of its bytes (a shortcut that re-emits cached bytes would announce a stale stream list / PCR PID)
+		rkey := fname + "/regenerates-on-every-success"
+		wp := p.Func("writePacket")
+		var pcalls []*ssa.Call
+		if wp != nil {
+			pcalls, _ = callsTo(f, wp)
+		}
+		domAny := func(cs []*ssa.Call, ret *ssa.Return) bool {
+			for _, c := range cs {
+				if c.Block() == ret.Block() && ssau.InstrBefore(c, ret) {
+					return true
+				}
+				if c.Block() != ret.Block() && c.Block().Dominates(ret.Block()) {
+					return true
+				}
+			}
+			return false
+		}
+		var bad []string
+		nsucc := 0
+		for _, ret := range ssau.Returns(f) {
+			if len(ret.Results) != 1 || ssau.ProvablyNonNilError(ret.Results[0], ret.Block()) {
+				continue
+			}
+			nsucc++
+			if !domAny(wcalls, ret) {
+				bad = append(bad, "the return at "+instrPos(p, ret)+" can succeed without writePSIData having serialised the live table")
+			} else if !domAny(pcalls, ret) {
+				bad = append(bad, "the return at "+instrPos(p, ret)+" can succeed without writePacket having packetised the serialised table")
+			}
+		}
+		switch {
+		case nsucc == 0:
+			r.Unknown(RuleCurrent, rkey, funcPos(p, f), "no return that can carry a nil error found in "+fname)
+		case len(bad) > 0:
+			r.Bad(RuleCurrent, rkey, funcPos(p, f), strings.Join(bad, "; "))
+		default:
+			r.OK(RuleCurrent, rkey, funcPos(p, f), fmt.Sprintf("%d return(s) that can carry a nil error, each dominated by writePSIData(live table) and by writePacket", nsucc))
+		}
 	}
 }
 
